@@ -15,13 +15,18 @@ package main
 //     (the current child's, inside the loop; the zero xml.Name{} for the empty
 //     stanza after it), resolving which `start` is in scope;
 //   - bufReader.Token: whether a token obtained from the underlying reader is
-//     appended to the replay buffer before the error that came with it is looked at.
+//     appended to the replay buffer before the error that came with it is looked at;
+//   - per-call state: which fields of the shared ServeMux are written or aliased
+//     (assigned, incremented, sliced, address taken, appended to) by anything but
+//     New and the options it applies, and whether forChildren allocates its replay
+//     buffer locally (make / literal / nil) rather than taking it from somewhere.
 // Control flow beyond that (routers, forChildren) is modelled by hand.
 
 import (
 	"fmt"
 	"go/ast"
 	"go/token"
+	"sort"
 	"strconv"
 	"strings"
 )
@@ -566,6 +571,7 @@ func (g *gen) mux() {
 	g.p("\n")
 	g.forChildren(f)
 	g.bufReaderToken(f)
+	g.sharedState(f)
 }
 
 // lookupArgs collects, for every call m.MessageHandler(_, arg) / m.PresenceHandler(_, arg)
@@ -758,6 +764,158 @@ func (g *gen) bufReaderToken(f *ast.File) {
 		}
 	}
 	g.p("Definition bufreader_buffers_token_with_error : bool := %s. (* a token that comes with an error is appended to the buffer all the same *)\n", muxCoqBool(withErr))
+}
+
+// muxRoot strips indexing, slicing, dereferences and field selections off e and
+// returns "x.f" for the innermost selection on a plain identifier x ("" if none).
+func muxRoot(e ast.Expr) (ident, field string) {
+	for {
+		switch x := e.(type) {
+		case *ast.ParenExpr:
+			e = x.X
+		case *ast.StarExpr:
+			e = x.X
+		case *ast.IndexExpr:
+			e = x.X
+		case *ast.SliceExpr:
+			e = x.X
+		case *ast.SelectorExpr:
+			if id, is := x.X.(*ast.Ident); is {
+				return id.Name, x.Sel.Name
+			}
+			e = x.X
+		default:
+			return "", ""
+		}
+	}
+}
+
+// sharedState lists the ServeMux fields that code other than New (and the
+// options, which New applies) writes or takes a writable alias of: the mux is
+// shared between sessions and re-entered by handlers, so state of one dispatch
+// must not live on it.
+func (g *gen) sharedState(f *ast.File) {
+	touched := map[string]bool{}
+	for _, d := range f.Decls {
+		fd, is := d.(*ast.FuncDecl)
+		if !is || fd.Body == nil || (fd.Recv == nil && fd.Name.Name == "New") {
+			continue
+		}
+		muxes := map[string]bool{}
+		var fields []*ast.Field
+		if fd.Recv != nil {
+			fields = append(fields, fd.Recv.List...)
+		}
+		fields = append(fields, fd.Type.Params.List...)
+		for _, p := range fields {
+			if t := muxExpr(p.Type); t == "*ServeMux" || t == "ServeMux" {
+				for _, n := range p.Names {
+					muxes[n.Name] = true
+				}
+			}
+		}
+		if len(muxes) == 0 {
+			continue
+		}
+		mark := func(e ast.Expr) {
+			if id, fld := muxRoot(e); id != "" && muxes[id] {
+				touched[fld] = true
+			}
+		}
+		ast.Inspect(fd.Body, func(n ast.Node) bool {
+			switch x := n.(type) {
+			case *ast.AssignStmt:
+				for _, l := range x.Lhs {
+					mark(l)
+				}
+				// mm := m would escape this analysis
+				for _, r := range x.Rhs {
+					if id, is := r.(*ast.Ident); is && muxes[id.Name] {
+						g.errs = append(g.errs, fmt.Sprintf("mux/mux.go: %s: the mux is copied to another variable at %s", fd.Name.Name, g.fset.Position(x.Pos())))
+					}
+				}
+			case *ast.IncDecStmt:
+				mark(x.X)
+			case *ast.SliceExpr:
+				mark(x.X)
+			case *ast.UnaryExpr:
+				if x.Op == token.AND {
+					mark(x.X)
+				}
+			case *ast.CallExpr:
+				if id, is := x.Fun.(*ast.Ident); is && (id.Name == "append" || id.Name == "copy") && len(x.Args) > 0 {
+					mark(x.Args[0])
+				}
+			}
+			return true
+		})
+	}
+	var names []string
+	for n := range touched {
+		names = append(names, n)
+	}
+	sort.Strings(names)
+	var coq []string
+	for _, n := range names {
+		coq = append(coq, muxCoqStr(n))
+	}
+	g.p("Definition servemux_fields_touched_after_new : list bytes := [%s]. (* %s *)\n", strings.Join(coq, "; "), strings.Join(names, " "))
+
+	// forChildren: r := &bufReader{r: t, buf: <alloc>, offset: 1}; br := &bufReader{r: t, buf: r.buf}
+	local, alloc := false, "?"
+	perChild := 0
+	if fd := funcDecl(f, "forChildren"); fd != nil && fd.Body != nil {
+		ast.Inspect(fd.Body, func(n ast.Node) bool {
+			as, is := n.(*ast.AssignStmt)
+			if !is || as.Tok != token.DEFINE || len(as.Lhs) != 1 || len(as.Rhs) != 1 {
+				return true
+			}
+			ue, is := as.Rhs[0].(*ast.UnaryExpr)
+			if !is || ue.Op != token.AND {
+				return true
+			}
+			cl, is := ue.X.(*ast.CompositeLit)
+			if !is || muxExpr(cl.Type) != "bufReader" {
+				return true
+			}
+			buf := ast.Expr(nil)
+			for _, el := range cl.Elts {
+				if kv, is := el.(*ast.KeyValueExpr); is && muxExpr(kv.Key) == "buf" {
+					buf = kv.Value
+				}
+			}
+			switch muxExpr(as.Lhs[0]) {
+			case "r":
+				switch b := buf.(type) {
+				case nil:
+					local, alloc = true, "nil"
+				case *ast.CallExpr:
+					alloc = muxExpr(b)
+					local = muxExpr(b.Fun) == "make"
+				case *ast.CompositeLit:
+					local, alloc = true, muxExpr(b)
+				case *ast.Ident:
+					alloc = b.Name
+					local = b.Name == "nil"
+				default:
+					alloc = muxExpr(buf)
+				}
+			case "br":
+				if buf != nil && muxExpr(buf) == "r.buf" {
+					perChild++
+				} else {
+					g.errs = append(g.errs, "mux/mux.go: forChildren: a per-child bufReader does not share r.buf")
+				}
+			default:
+				g.errs = append(g.errs, "mux/mux.go: forChildren: unexpected bufReader "+muxExpr(as.Lhs[0]))
+			}
+			return true
+		})
+	}
+	if alloc == "?" || perChild != 2 {
+		g.errs = append(g.errs, "mux/mux.go: forChildren: expected r := &bufReader{...} and one br := &bufReader{r: t, buf: r.buf} per stanza kind")
+	}
+	g.p("Definition forchildren_buffer_is_local : bool := %s. (* buf: %s *)\n", muxCoqBool(local), strings.ReplaceAll(alloc, "*)", "* )"))
 }
 
 func muxRet(s ast.Stmt) string {
